@@ -666,3 +666,87 @@ def _resolve(ct: ClassTable, classes: List[str], chain: List[str], want_call: Op
                 elif not ann:
                     results.append("")
     return results or None
+
+
+# ---------------------------------------------------------------------------
+# Y2(iii) names whose import is decided on the Python side: `warnings`
+
+
+def rule_Y2iii(ctx, rule: str = "Y2") -> None:
+    """every template condition under which `warnings.` is emitted has a matching disjunct in
+    OutputTemplate.python_module_imports (which decides whether `import warnings` is generated)"""
+    tm = tmodel(ctx)
+    mod = ctx.repo.mod(M_MODELS)
+    # template side: (collection path of the loop variable, attribute chain) for each guarding condition
+    loop_coll: Dict[str, str] = {}
+    for f in tm.body.find_all(jn.For):
+        if isinstance(f.target, jn.Name):
+            it = jtext(f.iter).split("|")[0]
+            root, _, rest = it.partition(".")
+            base = loop_coll.get(root, "") if root != "output_file" else ""
+            loop_coll.setdefault(f.target.name, (base + "." if base else "") + rest)
+    conds: Dict[Tuple[str, str], int] = {}
+
+    def guarded(nodes_, stack):
+        for n in nodes_:
+            if isinstance(n, jn.Output):
+                if any(isinstance(x, jn.TemplateData) and "warnings." in x.data for x in n.nodes) and stack:
+                    t = stack[-1]
+                    leaf = t
+                    while isinstance(leaf, jn.Not):
+                        leaf = leaf.node
+                    for part in ([leaf.left, leaf.right] if isinstance(leaf, jn.Or) else [leaf]):
+                        txt = jtext(part)
+                        var, _, chain = txt.partition(".")
+                        conds[(loop_coll.get(var, var), chain)] = n.lineno
+            elif isinstance(n, jn.If):
+                guarded(n.body, stack + [n.test])
+                for el in n.elif_:
+                    guarded(el.body, stack + [el.test])
+                guarded(n.else_, stack)
+            elif isinstance(n, jn.For):
+                # a loop over a collection is a condition "the collection is non-empty"
+                it = jtext(n.iter).split("|")[0]
+                var, _, chain = it.partition(".")
+                guarded(n.body, stack + [n.iter] if chain and "deprecated" in chain else stack)
+    guarded(tm.body.body, [])
+    if not conds:
+        raise AnalysisError("template: no condition guarding `warnings.` found")
+    # python side
+    fn = mod.func("OutputTemplate.python_module_imports")
+    have: Set[Tuple[str, str]] = set()
+    var_coll: Dict[str, Set[str]] = {}
+    comps = [n for n in ast.walk(fn) if isinstance(n, (ast.GeneratorExp, ast.ListComp, ast.SetComp))] + [n for n in ast.walk(fn) if isinstance(n, ast.For)]
+    for _round in range(6):       # nesting depth of the comprehensions is tiny; the sets only grow
+        for c in comps:
+            gens = c.generators if not isinstance(c, ast.For) else [c]
+            for g_ in gens:
+                tgt = g_.target.id if isinstance(g_.target, ast.Name) else None
+                it = ast.unparse(g_.iter)
+                if tgt is None:
+                    continue
+                root, _, rest = it.partition(".")
+                if root == "self" and rest:
+                    var_coll.setdefault(tgt, set()).add(rest)
+                elif root in var_coll and rest and root != tgt:
+                    for base in list(var_coll[root]):
+                        if base.count(".") < 3:
+                            var_coll.setdefault(tgt, set()).add(base + "." + rest)
+    for n in ast.walk(fn):
+        if isinstance(n, ast.Attribute):
+            txt = ast.unparse(n)
+            root, _, chain = txt.partition(".")
+            if root in var_coll and chain:
+                for coll in var_coll[root]:
+                    have.add((coll, chain))
+    norm = lambda c: c.replace("has_deprecated_fields", "deprecated_fields")
+    have_n = {(a, norm(b)) for a, b in have}
+    for (coll, chain), line in sorted(conds.items()):
+        name = f"warnings-import:{coll}.{chain}"
+        if (coll, norm(chain)) in have_n:
+            ctx.proved(rule, name, f"{T_BODY}:{line}")
+        else:
+            ctx.refuted(rule, name, "no-matching-disjunct", mod.loc(fn),
+                        f"the template emits `warnings.warn(...)` under the condition `{chain}` on elements of `{coll}`, but python_module_imports (which decides whether `import warnings` is generated) "
+                        f"looks only at {sorted(have)}: a module where only this condition holds calls warnings.warn without importing warnings (NameError at call time)",
+                        "a service whose only deprecated item is one RPC method")
